@@ -1139,7 +1139,7 @@ class M_run_dag(CoroBase):
             out += self.iteration_clauses(it, pre, a, tail, None) if False else []
             errs = calls(tail, '__has_subgraph_error')
             unl = calls(tail, '__unlock_descendants')
-            out.append(('early-exit-only-in-a-failed-one-of-scope|C10', z3.And(sub.is_oneof, z3.BoolVal(bool(errs)))))
+            out.append(('early-exit-only-in-a-failed-one-of-scope|C10,C06,C02', z3.And(sub.is_oneof, z3.BoolVal(bool(errs)))))
             out.append(('early-exit-launches-nothing-further|C10', not spawns(tail) and not calls(tail, '_create_task')))
             out.append(('early-exit-releases-the-waiters-of-the-node-it-did-not-launch|C02,C10', len(unl) == 1))
             out.append(('early-exit-returns-None', T(value, st) == NONE))
